@@ -73,7 +73,7 @@ type vfBarCase struct {
 var vfNamesByClass = map[string][]string{
 	"ascii":     {"a", "file.bin", strings.Repeat("n", 19), strings.Repeat("n", 20), strings.Repeat("n", 21), strings.Repeat("long", 12) + ".txt", strings.Repeat("x", 300)},
 	"cjk":       {"中", "中文文件名.dat", strings.Repeat("漢", 9), strings.Repeat("漢", 10), strings.Repeat("漢", 11), strings.Repeat("字", 60)},
-	"emoji":     {"😀", "👨‍👩‍👧‍👦 family.png", strings.Repeat("🎉", 15), "a😀b😀c😀d😀e😀f😀g😀h😀i😀j😀k😀"},
+	"emoji":     {"😀", "👨‍👩‍👧‍👦 family.png", strings.Repeat("🎉", 15), "a😀b😀c😀d😀e😀f😀g😀h😀i😀j😀k😀", strings.Repeat("⭐", 40), "report ✅ final ⚡ version ⌚ of the quarterly numbers ✅⚡⌚⭐.xlsx", strings.Repeat("ᄀ", 30) + ".txt"},
 	"combining": {"é", strings.Repeat("é", 30), "à́̂̃", strings.Repeat("ก็", 25)},
 	"control":   {"a\x01b", "tab\there", "bell\x07", "c1\u0085x", strings.Repeat("\x02", 40)},
 	"invalid":   {"bad\xff\xfeutf8", string([]byte{0xc3, 0x28}), strings.Repeat("\xe2\x82", 20)},
